@@ -160,6 +160,20 @@ theorem eval_ok_iff (e : OpExpr) : (∃ o, e.eval = .ok o) ↔ (∃ t, e.type? =
     | error err => rw [he] at h; cases h
     | ok o => exact ⟨o, rfl⟩
 
+/-- the dense denotation of a well-typed expression has the shape its static type announces -/
+theorem denote_shape (e : OpExpr) (t : Ty) (h : e.type? = .ok t) :
+    e.denote.nRow = t.nRow ∧ e.denote.nCol = t.nCol := by
+  rw [← eval_type_exact] at h
+  cases he : e.eval with
+  | error err => rw [he] at h; cases h
+  | ok o =>
+    rw [he] at h
+    have ht : o.ty = t := Except.ok.inj h
+    obtain ⟨hw, hd⟩ := OpExpr.denote_spec e o he
+    obtain ⟨hr, hc⟩ := Op.dense_shape o hw
+    subst ht
+    exact ⟨by rw [← hd.nRow, hr]; rfl, by rw [← hd.nCol, hc]; rfl⟩
+
 /-- every operator obtained by evaluating an expression is well formed (valid low-rank tuples, square Laplacian,
 composable CoNeighbor factors, square non-empty Polynome matrix), whatever the regularisations -/
 theorem eval_well_formed (e : OpExpr) (o : Op) (h : e.eval = .ok o) : o.WF := OpExpr.eval_wf e o h
